@@ -19,6 +19,7 @@ EXTENDS Integers, Sequences, FiniteSets, TLC
 CONSTANTS N,          \* epochs of the best chain that have a store point
           Start,      \* first epoch the pass recomputes (epoch of HAYABUSA+HayabusaTP); epochs below keep their value
           MaxCrashes,
+          RepairAtStart, \* TRUE: the start-up repair of an interrupted commit exists (code after the fix of F2)
           AllowMissing, \* TRUE: stale store may lack qualities (F2)
           Variant      \* "asis" = the code; seeded design errors the properties must reject: "noguard" (the
                        \* finalized-epoch guard dropped), "fromgenesis" (search from genesis, result always written)
@@ -27,6 +28,7 @@ Epochs == 1..N
 Missing == -1
 
 VARIABLES J, C,        \* facts of the chain (constant during a behaviour)
+          hsp,         \* the head of the best chain is a store point (the chain ends exactly with epoch N)
           dq,          \* persisted quality per store point (Missing = no entry)
           dFin,        \* persisted finalized checkpoint, as the number of the epoch it opens (1 = genesis)
           ver,         \* persisted resync version (0 / 1)
@@ -34,7 +36,7 @@ VARIABLES J, C,        \* facts of the chain (constant during a behaviour)
           pc,          \* "off" | "q" | "fin" | "ver" | "done" | "failed"
           up, crashes,
           fin0, q0     \* the stale store the behaviour started from (history, for the completion properties)
-vars == <<J, C, dq, dFin, ver, k, pc, up, crashes, fin0, q0>>
+vars == <<J, C, hsp, dq, dFin, ver, k, pc, up, crashes, fin0, q0>>
 
 Max(a, b) == IF a >= b THEN a ELSE b
 GetQ(f, e) == IF f[e] = Missing THEN 0 ELSE f[e]            \* getQuality: not found => 0
@@ -69,7 +71,17 @@ Facts == {jc \in [Epochs -> {"none", "just", "com"}] : TRUE}
 JOf(p) == [e \in Epochs |-> p[e] # "none"]
 COf(p) == [e \in Epochs |-> p[e] = "com"]
 
-Init == \E p \in Facts, op \in Facts, miss \in SUBSET Epochs :
+\* bft.NewEngine -> recoverInterruptedCommit (fix of F2), which runs BEFORE the pass at every start: if the head of the
+\* chain is a store point without a persisted quality, it is committed with the qualities as they are in the store
+Repaired(f, fin) ==
+  IF ~(RepairAtStart /\ hsp /\ f[N] = Missing) THEN <<f, fin>>
+  ELSE LET q == (IF N = 1 THEN 0 ELSE GetQ(f, N - 1)) + (IF J[N] THEN 1 ELSE 0)
+           f2 == [f EXCEPT ![N] = q]
+           cp == IF C[N] /\ q > 1 /\ N > fin THEN FindCP(f2, q - 1, fin, N) ELSE 0
+       IN <<f2, IF cp > fin THEN cp ELSE fin>>
+
+Init == \E p \in Facts, op \in Facts, miss \in SUBSET Epochs, h \in BOOLEAN :
+          /\ hsp = h
           /\ (miss # {} => AllowMissing)
           /\ \A e \in Epochs : e < Start => op[e] = p[e]            \* epochs before the pass are not stale
           /\ \A e \in miss : e >= Start
@@ -81,10 +93,13 @@ Init == \E p \in Facts, op \in Facts, miss \in SUBSET Epochs :
 
 \* Resync entered at start-up: version check
 Begin == /\ up /\ pc = "off"
+         \* the finalized checkpoint the store implies is the one after this repair: it is what the node would hold had
+         \* the interrupted commit completed (with the same, possibly stale, qualities)
+         /\ LET r == Repaired(dq, dFin) IN dq' = r[1] /\ dFin' = r[2] /\ fin0' = r[2]
          /\ IF ver >= 1 THEN pc' = "done" /\ k' = 0
             ELSE IF Start > N THEN pc' = "ver" /\ k' = 0
             ELSE pc' = "q" /\ k' = Start
-         /\ UNCHANGED <<J, C, dq, dFin, ver, up, crashes, fin0, q0>>
+         /\ UNCHANGED <<J, C, hsp, ver, up, crashes, q0>>
 
 NewQ == (IF k = 1 THEN 0 ELSE GetQ(dq, k - 1)) + (IF J[k] THEN 1 ELSE 0)
 
@@ -92,7 +107,7 @@ NewQ == (IF k = 1 THEN 0 ELSE GetQ(dq, k - 1)) + (IF J[k] THEN 1 ELSE 0)
 WQ == /\ up /\ pc = "q"
       /\ dq' = [dq EXCEPT ![k] = NewQ]
       /\ pc' = "fin"
-      /\ UNCHANGED <<J, C, dFin, ver, k, up, crashes, fin0, q0>>
+      /\ UNCHANGED <<J, C, hsp, dFin, ver, k, up, crashes, fin0, q0>>
 
 Next1 == IF k = N THEN <<0, "ver">> ELSE <<k + 1, "q">>
 \* finalized advances (one write), is left alone (no write), or the search fails (the pass returns an error)
@@ -106,17 +121,17 @@ WFin == /\ up /\ pc = "fin"
            IN IF wants /\ cp = 0 THEN /\ pc' = "failed" /\ UNCHANGED <<dFin, k>>
               ELSE /\ dFin' = (IF cp > dFin \/ (wants /\ Variant = "fromgenesis") THEN cp ELSE dFin)
                    /\ k' = Next1[1] /\ pc' = Next1[2]
-        /\ UNCHANGED <<J, C, dq, ver, up, crashes, fin0, q0>>
+        /\ UNCHANGED <<J, C, hsp, dq, ver, up, crashes, fin0, q0>>
 
 WVer == /\ up /\ pc = "ver"
         /\ ver' = 1 /\ pc' = "done"
-        /\ UNCHANGED <<J, C, dq, dFin, k, up, crashes, fin0, q0>>
+        /\ UNCHANGED <<J, C, hsp, dq, dFin, k, up, crashes, fin0, q0>>
 
 Crash == /\ up /\ pc \in {"q", "fin", "ver"} /\ crashes < MaxCrashes
          /\ up' = FALSE /\ crashes' = crashes + 1 /\ pc' = "off" /\ k' = 0
-         /\ UNCHANGED <<J, C, dq, dFin, ver, fin0, q0>>
+         /\ UNCHANGED <<J, C, hsp, dq, dFin, ver, fin0, q0>>
 Restart == /\ ~up /\ up' = TRUE
-           /\ UNCHANGED <<J, C, dq, dFin, ver, k, pc, crashes, fin0, q0>>
+           /\ UNCHANGED <<J, C, hsp, dq, dFin, ver, k, pc, crashes, fin0, q0>>
 
 Next == Begin \/ WQ \/ WFin \/ WVer \/ Crash \/ Restart
 Spec == Init /\ [][Next]_vars
